@@ -32,6 +32,10 @@ pub struct Scenario {
     /// capacity used for the hashing queue instead of the code's 16 (0 = unchanged)
     #[serde(default)]
     pub process_cap: usize,
+    /// the source issues an empty fill before the fill that delivers a block (a "reset" packet; a no-op
+    /// for the single-thread buffer and context)
+    #[serde(default)]
+    pub empty_fill_first: bool,
 }
 
 impl Scenario {
@@ -127,6 +131,13 @@ impl Source for ScriptSource {
                 let n = if last && self.sc.tail > 0 { self.sc.tail } else { block_size };
                 let blk = block(&self.sc, self.block_no, valid, n);
                 self.block_no += 1;
+                if self.sc.empty_fill_first {
+                    if self.sc.byte_source {
+                        dest.fill_le_bytes(&[], bytes_per_sample(self.sc.bps))?;
+                    } else {
+                        dest.fill_interleaved(&[])?;
+                    }
+                }
                 if self.sc.byte_source {
                     let b = bytes_per_sample(self.sc.bps);
                     let mut bytes = Vec::with_capacity(blk.len() * b);
